@@ -46,7 +46,7 @@ Definition e_pat (p : pat) : sexp :=
 Definition e_sc (s : sc) : sexp := L [e_str (sc_rest s); A (sc_line s); e_nat (sc_pos s)].
 
 (* 1: Parser().parse_string(text) in strict, non-strict and capture mode
-   8: capture-mode readings of x+bad+y, x+y, x        9, 10: capture-mode reading (10: of a rendering, C01)   11: low-level commands of a rendering
+   8: capture-mode readings of x+bad+y, x+y, x        9, 10: capture-mode reading (10: of a rendering, C01)   11: low-level commands of a rendering   12: one Parser instance reading several strings
    2: list(LowLevelParser(text)) with the same error handler
    3: normalize_whitespace     4: pattern.match(text)      5: month_names
    6: get_token(patterns) on a scanner at (text, lineno 1)
@@ -69,6 +69,7 @@ Definition dispatch (fn : Z) (a : sexp) : sexp :=
               e_out e_db (parse_bib Capture x)]
   | 9%Z | 10%Z => e_out e_db (parse_bib Capture (d_str (d_nth a 0)))
   | 11%Z => e_out e_low (lowlevel Capture (d_str (d_nth a 0)))
+  | 12%Z => e_out e_db (parse_bib_seq Capture (d_list d_str (d_nth a 0)) db_init month_macros [])
   | _ => L []
   end.
 
